@@ -4,7 +4,8 @@
    of them beyond a normalised measurement -- which Measurement.get guarantees for every renderable. *)
 From RichModel Require Import Prelude Cells Segments Ratio Frames Layout SpecLayout.
 From RichModel Require Table Wrap SpecTable.
-From RichProofs Require Import CellsP SegmentsP RatioP TableP LayoutP LayoutP2 LayoutP8 LayoutP9 LayoutP3 LayoutP4 LayoutP5.
+From RichGen Require BoxChars.
+From RichProofs Require Import CellsP SegmentsP RatioP TableP LayoutP LayoutP2 LayoutP8 LayoutP9 LayoutP10 LayoutP3 LayoutP4 LayoutP5.
 From Coq Require Import ZifyBool.
 
 Definition tbl_ok (t : tblspec) : bool :=
@@ -66,15 +67,15 @@ Proof.
   set (cells := table_cols cf t rows). unfold table_stream. fold cells.
   set (cols := table_tcols t cells).
   assert (Hlen : length cols = length (tb_cols t)) by apply table_tcols_length.
-  destruct (Table.table_widths false false (tb_o t) cols W) as [ws|e|k] eqn:Ew;
+  destruct (Table.table_widths_x FLEXMIN false false (tb_o t) cols W) as [ws|e|k] eqn:Ew;
     [|split; [apply sfits_nil|left; reflexivity]|split; [apply sfits_nil|left; reflexivity]].
-  unfold Table.table_widths, Table.target_width in Ew.
+  unfold Table.table_widths_x, Table.target_width in Ew.
   destruct (Table.o_width (tb_o t)) eqn:Eow; [discriminate|].
   assert (Hcne : cols <> []).
   { intros Hc. rewrite Hc in Hlen. destruct (tb_cols t); [discriminate|discriminate]. }
   assert (Hp : pad_ok (tb_o t)).
   { unfold pad_ok. unfold nonneg4 in Hpad. destruct (Table.o_pad (tb_o t)) as [[[a b] c] d]. lia. }
-  destruct (calc_widths_bound_minw (tb_o t) cols (W - Table.extra_width (tb_o t) (length cols)) ws Hcne
+  destruct (calc_widths_x_bound FLEXMIN (tb_o t) cols (W - Table.extra_width (tb_o t) (length cols)) ws Hcne
               (table_tcols_free cf t rows Hcols) Hp Ew) as [L1 [L2 L3]].
   assert (Hbx : box_agrees (tb_o t) (tb_boxc t)).
   { split.
